@@ -670,6 +670,90 @@ def el_million_class(chk):
                       ["C03: %d events requested for one instant within one step of the loop: pop #%d returned the event requested #%s "
                        "(first in, first out expected)" % (n, wrong[0], wrong[1])])
 
+def heapq_layout_class(chk, R, count):
+    """the Gallina transcription of CPython's heapq (coq/Heap.v), ordered by the model's ev_lt, against CPython's heapq holding the
+    repo's own Event objects (ordered by Event.__lt__): the layout of the whole array after every push and pop must be the same, and
+    the transcription's array must satisfy the heap condition after every operation (computed inside Coq by vm_compute).  When the
+    layouts differ the histories are searched for one on which the repo's events leave the heap out of (time, request) order: that is
+    the failing input; a different layout with the right order of pops is recorded and raises nothing (the theorems of C02/C03 about
+    the event loop do not rest on the array layout)."""
+    import heapq
+    import subprocess
+    from gradysim.simulator.event import Event
+    cases = []
+    for k in range(count):
+        ops, heap, layouts, n, pops = [], [], [], 0, []
+        span = R.choice([1, 2, 3, 5, 40])
+        for _ in range(R.randint(1, 60 if k % 10 else 400)):
+            if R.random() < 0.62 or not heap:
+                ts = R.randint(0, span)
+                ops.append(ts)
+                heapq.heappush(heap, Event(float(ts), None, "", n))
+                n += 1
+            else:
+                ops.append(None)
+                e = heapq.heappop(heap)
+                pops.append((e.timestamp, e.sequence, sorted((x.timestamp, x.sequence) for x in heap + [e])[0]))
+            layouts.append([e.sequence for e in heap])
+        cases.append((ops, layouts, pops))
+        chk.record("heapq-layout", {"ops": len(ops), "span": span}, True)
+    def lit(c):
+        ops, layouts, _ = c
+        return "([%s], [%s])" % ("; ".join("None" if o is None else "Some %d%%Z" % o for o in ops),
+                                 "; ".join("[%s]" % "; ".join("%d%%N" % q for q in l) for l in layouts))
+    src = """From Coq Require Import List ZArith NArith Bool. Import ListNotations.
+From GS Require Import Num NumZ EventLoop Heap.
+Definition E := event Z unit.
+Definition lt : E -> E -> bool := ev_lt Z_ops.
+Fixpoint run (ops : list (option Z)) (h : list E) (n : N) : list (list N * bool) :=
+  match ops with
+  | [] => []
+  | Some ts :: r => let h' := heappush lt h (mkEv ts n tt) in (map (@ev_seq Z unit) h', heap_invb lt h') :: run r h' (N.succ n)
+  | None :: r => match heappop lt h with
+                 | None => ([], false) :: run r h n
+                 | Some (_, h') => (map (@ev_seq Z unit) h', heap_invb lt h') :: run r h' n
+                 end
+  end.
+Definition same (a b : list (list N)) : bool := if list_eq_dec (list_eq_dec N.eq_dec) a b then true else false.
+Definition verdict (c : list (option Z) * list (list N)) : nat :=
+  let res := run (fst c) [] 0%%N in
+  if negb (forallb snd res) then 2 else if same (map fst res) (snd c) then 0 else 1.
+Definition cases : list (list (option Z) * list (list N)) := [
+%s
+].
+Eval vm_compute in (map verdict cases).
+""" % ";\n".join(lit(c) for c in cases)
+    d = tempfile.mkdtemp(prefix="heapq_", dir=os.path.join(VERIF, "build"))
+    try:
+        open(os.path.join(d, "hcases.v"), "w").write(src)
+        p = subprocess.run("ulimit -s unlimited 2>/dev/null; timeout 900 coqc -Q %s GS hcases.v" % engine.COQ, shell=True, cwd=d,
+                           capture_output=True, text=True)
+        out = p.stdout + p.stderr
+    finally:
+        import shutil
+        shutil.rmtree(d, ignore_errors=True)
+    import re
+    m = re.search(r"=\s*\[([^\]]*)\]", out)
+    verdicts = [int(x) for x in re.findall(r"\d+", m.group(1))] if (p.returncode == 0 and m) else None
+    if verdicts is None or len(verdicts) != len(cases):
+        chk.corr_break("heapq-layout", {"cases": len(cases)}, "the transcription could not be evaluated: " + out[-600:])
+        return
+    chk.validated += len(cases)
+    for c, v in sorted(zip(cases, verdicts), key=lambda cv: len(cv[0][0])):
+        ops, layouts, pops = c
+        case = {"ops": ["pop" if o is None else o for o in ops]}
+        if v == 2:
+            chk.corr_break("heapq-layout", case, "the transcribed heap leaves an array without the heap condition")
+        elif v == 1:
+            wrong = [q for q in pops if (q[0], q[1]) != q[2]]
+            if wrong:
+                chk.violation("heapq-layout", case,
+                              ["C03: heapq over the repo's events popped the event of time %r requested #%d while the one of time %r "
+                               "requested #%d was queued" % (wrong[0][0], wrong[0][1], wrong[0][2][0], wrong[0][2][1])])
+            else:
+                chk.record("heapq-layout-differs-pops-agree", {"ops": len(ops)}, False)
+            break
+
 
 def check_C02(chk, R, S):
     chk.rule = ("event-loop API histories (exhaustive to length %d, random to 60) checked against conservation "
@@ -689,6 +773,7 @@ def check_C02(chk, R, S):
     run_el_class(chk, "el-around-source-constants", el_mined(R, max(300, S["el_rand"] // 4)))
     run_el_class(chk, "el-events-at-infinity", el_infinite(R, 200))
     paced_interrupt_class(chk, R, which=(2, 3))
+    heapq_layout_class(chk, R, max(150, S["el_rand"] // 20))
     chk.exhaustive = True
 
 
@@ -709,6 +794,7 @@ def check_C03(chk, R, S):
     run_el_class(chk, "el-chronological", el_chrono(R, max(200, S["el_rand"] // 4)))
     run_el_class(chk, "el-around-source-constants", el_mined(R, max(300, S["el_rand"] // 4)))
     run_el_class(chk, "el-events-at-infinity", el_infinite(R, 200))
+    heapq_layout_class(chk, R, max(150, S["el_rand"] // 20))
     chk.exhaustive = True
 
 
